@@ -233,6 +233,8 @@ def haplotig_sliver_cases():
 SUBS = [
     Sub("api", kind="hyp", strategy=cases, body=body_api,
         budget={"quick": 24000, "thorough": 400000}, desc="AssemblyStats.cuts/breaks/joins vs independent adjacency count"),
+    Sub("small_contig_holes", kind="hyp", strategy=gen.small_contig_hole_case, body=body_api,
+        budget={"quick": 6000, "thorough": 100000}, desc="maps with a hole inside or next to a contig of up to 2.5 texels: cuts / breaks / joins vs independent count"),
     Sub("cli", kind="hyp", strategy=lambda: cases(cli=True), body=body_cli,
         budget={"quick": 240, "thorough": 3000}, desc="log line, info.yaml totals and haplotig-removal count vs the AGP files written"),
     Sub("cli_haplotypes", kind="hyp", strategy=lambda: gen.tagged_case(two_haplotypes=True, primary_mode=False, max_scaffolds=6, max_contigs=4, unprefixed_in_primary=True), body=body_cli,
